@@ -59,8 +59,15 @@ WRONG = [None, 5, 'x', b'x', 1.5, [], {}, ('a', 1), True, (b'\x00', 4)]
 
 
 def outcome(fn):
+    import threading
     try:
+        if threading.current_thread() is threading.main_thread():
+            # wall-clock guard only (a call that does not come back, e.g. the zero-width list finding of C08, would
+            # otherwise hold the shard until its watchdog): both sides of a comparison get the same 'hang' outcome
+            return ('value', repr(core.guarded(fn, 60)))
         return ('value', repr(fn()))
+    except core.CaseTimeout:
+        return ('hang',)
     except Exception as e:
         return ('error', type(e).__name__, str(e)[:300])
 
